@@ -70,6 +70,8 @@ func init() {
 }
 
 func init() {
+	compSorts[compReflectEpoch] = BV64
+	externWrites["(reflect.Value).Set"] = []string{compReflectEpoch}
 	regExtern("(reflect.Value).Interface", "reflect.Value.Interface(): the value as an interface - a function of the receiver (opaque)",
 		func(ex *Exec, fr *Frame, st *State, pc *Term, fn *ssa.Function, args []Value, pos token.Pos) (Value, *Term) {
 			ls := toLeaves(args[0])
